@@ -246,14 +246,20 @@ type c18Round struct {
 	// address they are connected through, 2 the unspecified address, 3 some other address. The
 	// host a peer is connected through is network.remoteAddress, whatever it advertises.
 	enodeForm int
-	nodeFail  string // the node refuses every call of this kind ("untrust" / "disconnect")
-	driver    string // "": the agent talks to the recording node directly; "rpc": through ethnode.RemoteNode
+	// peer 0 connected from / listed under explicit addresses instead of the table's (private
+	// networks, other address families)
+	localAddr0, activeEntry0 string
+	nodeFail                 string // the node refuses every call of this kind ("untrust" / "disconnect")
+	driver                   string // "": the agent talks to the recording node directly; "rpc": through ethnode.RemoteNode
 }
 
 func (r c18Round) String() string {
 	s := fmt.Sprintf("peers=%v invalid=%v strict=%v target=%d node=%s/full=%v pool-returns=%d peer-error=%q advertised-enode-form=%d", r.states, shortIDs(r.invalid), r.strict, r.target, r.kind, r.full, r.nHosts, r.peerErr, r.enodeForm)
 	if r.nodeFail != "" {
 		s += " node-refuses=" + r.nodeFail
+	}
+	if r.localAddr0 != "" {
+		s += fmt.Sprintf(" peer0-connected-from=%s listed-as=%s", r.localAddr0, strings.TrimPrefix(r.activeEntry0, "enode://"+c18Ids[0]))
 	}
 	if r.driver != "" {
 		s += " through-the-real-" + r.kind.String() + "-driver"
@@ -424,6 +430,9 @@ func c18Setup(r c18Round) (*recNode, *scriptPool, *agent.Agent) {
 		if strings.HasPrefix(st, "local") {
 			p := ethnode.PeerInfo{ID: c18Ids[i]}
 			p.Network.RemoteAddress = c18Addrs[i]
+			if i == 0 && r.localAddr0 != "" {
+				p.Network.RemoteAddress = r.localAddr0
+			}
 			switch r.enodeForm {
 			case 1:
 				p.Enode = "enode://" + c18Ids[i] + "@" + c18Addrs[i]
@@ -435,6 +444,9 @@ func c18Setup(r c18Round) (*recNode, *scriptPool, *agent.Agent) {
 			node.peers = append(node.peers, p)
 		}
 		if e := c18ActiveEntry(i, st); e != "" {
+			if i == 0 && r.activeEntry0 != "" {
+				e = r.activeEntry0
+			}
 			sp.update.ActivePeers = append(sp.update.ActivePeers, e)
 		}
 	}
@@ -732,7 +744,7 @@ func init() {
 			for s := 0; s < n; s++ {
 				us = append(us, c18Single(s, n))
 			}
-			us = append(us, c18ErrorsAndHistories(), c18SlowRound(), c18NodeFaults())
+			us = append(us, c18ErrorsAndHistories(), c18SlowRound(), c18NodeFaults(), c18AddressFamilies())
 			for s := 0; s < 4; s++ {
 				us = append(us, c18Drivers(s, 4))
 			}
